@@ -694,6 +694,11 @@ func (ec *EvalCtx) call(e *CExpr) Val {
 		vc.modules["iface"] = true
 		vc.strLits["ptrtid."+typeRepr(tv.Typ)] = "ptrtid"
 		return TV{app("mkptr", SInt, vc.typeID(tv.Typ), tv.T), nil}
+	case "$as":
+		// $as(*T, x): the pointer held by interface value x, typed *T
+		t := ec.resolveType(e.Args[0].String())
+		vc.modules["iface"] = true
+		return TV{app("ptrof", SInt, argT(1)), t}
 	case "$typeof":
 		vc.modules["iface"] = true
 		return TV{app("typeof", SInt, argT(0)), it}
@@ -727,6 +732,23 @@ func (ec *EvalCtx) call(e *CExpr) Val {
 	case "$strcat":
 		vc.strLits["fun.str.cat"] = "(Str Str) Str"
 		return TV{app("str.cat", SStr, argT(0), argT(1)), types.Typ[types.String]}
+	case "$dec":
+		// $dec(b, SortType, "Struct.field"): the value of that field decoded from the JSON bytes b (see encoding/json primitives)
+		sv, ok := arg(0).(SliceV)
+		if !ok {
+			fail("$dec needs a byte slice")
+		}
+		t := ec.resolveType(e.Args[1].String())
+		srt := sortOf(t)
+		fn := "dec." + e.Args[2].Lit + "<" + srt + ">"
+		vc.strLits["fun."+fn] = "(Int) " + srt
+		return TV{app(smtIdent(fn), srt, sv.Arr), t}
+	case "$jsonrt":
+		t := ec.resolveType(e.Args[0].String())
+		srt := sortOf(t)
+		rt := "jsonrt<" + srt + ">"
+		vc.strLits["fun."+rt] = "(" + srt + ") " + srt
+		return TV{app(smtIdent(rt), srt, argT(1)), t}
 	case "$emptyset":
 		return TV{Term{"((as const (Array Int Bool)) false)", arrSort(SInt, SBool)}, nil}
 	case "$sel":
@@ -1025,6 +1047,12 @@ func (vc *VC) staticTargetKeys(tgt string, origin *ssa.Function, c *ssa.CallComm
 		}
 		if e.Name == "$chan" {
 			return []string{"CH:sent", "CH:rcvd", "CHV:<"}, true
+		}
+		if e.Name == "$open" {
+			return []string{"CH:open"}, true
+		}
+		if e.Name == "$cap" {
+			return []string{"CH:cap"}, true
 		}
 		if e.Name == "$deref" && e.Args[0].Kind == "ident" {
 			if t := typeOfName(e.Args[0].Name); t != nil {
